@@ -108,7 +108,7 @@ def finish(res, explanation, rule_text, trusted_base=None, checker_cmd=None):
         "analysed": res.analysed,
         "checker_cmd": checker_cmd or ("./check %s --tier %s" % (res.prop, res.tier)),
         "trusted_base": (trusted_base or []) + res.trusted,
-        "exhaustive": False,
+        "exhaustive": bool(getattr(res, "exhaustive", False)),
         "known_findings_seen": [v["key"] for v in seen_known],
         "new_violations": [v["key"] for v in new],
     }
